@@ -169,9 +169,9 @@ Proof.
   pose proof (Valid_perm l l' HP Hv) as Hv'.
   destruct (proj1 (Permutation_nth l l' dummy_c) HP) as (Hlen & g & Hg & Hinj & Hnth).
   cbn zeta in *.
-  pose proof (Oriented_reorder l l' g Hg Hinj Hnth Hv Hv' o Ho) as Ho'.
-  pose proof (Unresolved_reorder l l' g Hg Hnth Hu) as Hu'.
-  pose proof (NoOnlyOver_reorder l l' g Hg Hinj Hnth Hno) as Hno'.
+  pose proof (Oriented_reorder l l' g Hlen Hg Hinj Hnth Hv Hv' o Ho) as Ho'.
+  pose proof (Unresolved_reorder l l' g Hlen Hg Hnth Hu) as Hu'.
+  pose proof (NoOnlyOver_reorder l l' g Hlen Hg Hinj Hnth Hno) as Hno'.
   pose proof (signs_orientation_unique l o Hv Hu Ho Hno) as E.
   pose proof (signs_orientation_unique l' _ Hv' Hu' Ho' Hno') as E'.
   pose proof (signs_reorder_perm l l' g Hlen Hg Hinj Hnth o) as PS.
@@ -181,6 +181,17 @@ Proof.
   assert (SN : signed_crossing_nums l' = signed_crossing_nums l).
   { unfold signed_crossing_nums. rewrite E, E'. cbn [option_map]. rewrite C1, C2. reflexivity. }
   split; auto. unfold writhe. rewrite SN. reflexivity.
+Qed.
+
+(* a knot diagram (one component, at least one crossing) has no component that only passes over *)
+Lemma knot_NoOnlyOver : forall l c, Valid l -> components l = Some [c] -> 0 < length l -> NoOnlyOver l.
+Proof.
+  intros l c Hv E Hl. destruct (components_valid l Hv) as (cs & E' & _ & _ & Cov & Cl).
+  rewrite E in E'. inversion E'; subst cs; clear E'.
+  assert (Hin : forall e, In e (edge_labels l) -> In e (pedges c)).
+  { intros e He. apply Cov in He. cbn in He. rewrite app_nil_r in He. exact He. }
+  intros e He. exists 0. split; auto.
+  apply (Cl c ltac:(cbn; auto) e (Hin e He)). apply Hin. apply edge_at_in_labels. split; cbn; lia.
 Qed.
 
 (* Without planarity the hypothesis cannot be dropped: a valid, consistently oriented (non-planar) code
